@@ -1646,9 +1646,16 @@ func (db *DB) CommitWAL(ctx context.Context) (err error) {
 		return fmt.Errorf("cannot encode ltx header: %s", err)
 	}
 
-	// Build sorted list of page numbers in current transaction.
+	// Build sorted list of page numbers in current transaction. Frames for pages
+	// beyond the commit size were written and freed again within the transaction
+	// (e.g. cache spill followed by an incremental vacuum) and are not part of
+	// the database.
 	pgnos := make([]uint32, 0, len(txFrameOffsets))
 	for pgno := range txFrameOffsets {
+		if pgno > commit {
+			delete(txFrameOffsets, pgno)
+			continue
+		}
 		pgnos = append(pgnos, pgno)
 	}
 	sort.Slice(pgnos, func(i, j int) bool { return pgnos[i] < pgnos[j] })
